@@ -26,8 +26,10 @@ Inductive dfun := DGradient | DHessian | DHessLogDet.
 Inductive post := PNone | PColumn (k : Z).
 Inductive tail := TId | TExp | TSubLogN.
 Inductive adop := AFun | AJacrev (a : adop) | AJacfwd (a : adop).
-Inductive inner_post := INone | ISlogdetSquare.
-Inductive shape_target := SX | SXX | SEveryOther | SRows.
+(* ISlogdetSquare: the per-row Hessian is reshaped to (d, d) (scalar-valued functions only);
+   ISlogdetPerOutput: (d, d) when the function is scalar-valued (hess.size = d*d), one (d, d) block per output otherwise *)
+Inductive inner_post := INone | ISlogdetSquare | ISlogdetPerOutput.
+Inductive shape_target := SX | SXX | SEveryOther | SRows | SRowsOut.
 Inductive center := CenX | CenLandmarks.
 
 Record wiring := mkW { w_fun : dfun; w_callable : callable; w_args : list argexpr; w_post : post }.
@@ -104,7 +106,8 @@ Section Sem.
         match grad_sem (d_op r) f a0 with Some g => apply_post (w_post w) (VVec g) | None => None end
       | DHessian, INone =>
         match hess_sem (d_op r) f a0 with Some h => apply_post (w_post w) (VMat h) | None => None end
-      | DHessLogDet, ISlogdetSquare =>
+      | DHessLogDet, ISlogdetSquare
+      | DHessLogDet, ISlogdetPerOutput =>     (* f is scalar-valued here: hess.size = d * d, the (d, d) branch *)
         match hess_sem (d_op r) f a0 with
         | Some h => apply_post (w_post w) (VPair (fst (slogdet h)) (snd (slogdet h)))
         | None => None
@@ -142,6 +145,7 @@ Definition target_shape (t : shape_target) (xs raw : shape) : shape :=
   | SXX => xs ++ tl xs
   | SEveryOther => every_other raw
   | SRows => firstn 1 xs
+  | SRowsOut => every_other (firstn (length raw - 4) raw)    (* (n,) for scalar-valued functions, (n, m) for m outputs *)
   end.
 
 (* raw vmapped result and the shape that is returned, for x of shape (n, d) *)
